@@ -11,4 +11,7 @@ HARNESSES = [
          cases=[dict(id="n%d" % n, defines={"N": n}, unwind=n + 2,
                      tier="quick" if n <= 5 else "thorough",
                      label="bounded(files<=5)" if n <= 5 else "bounded(files<=7)") for n in range(8)]),
+    dict(name="sort_match", file="sort_match.c", label="bounded(files<=3, fixed 5-line sort file)", timeout=900,
+         fp={"get_filename": "stub_get_filename"},
+         cases=[dict(id="n%d" % n, defines={"N": n}, unwind=50, tier="quick") for n in (1, 2, 3)]),
 ]
